@@ -98,6 +98,16 @@ func (r *pkgRun) fail(prop, kind string, di int, op, expected, observed, model, 
 			path = "stream"
 		}
 		class = strings.TrimPrefix(class+" resource:"+kind+":"+path, " ")
+		// the listed run-aways have ONE cause: a count on the wire that is believed although the input cannot hold
+		// that many elements. The model declines exactly those inputs ("fuel": a loop over more than 65536 elements
+		// that consume nothing); a stream decode that hangs on an input the model gets through is something else.
+		if kind == "timeout" && path == "stream" && r.mdl != nil {
+			if t := strings.Fields(op); len(t) >= 3 {
+				if md, err := r.mdl.Do(fmt.Sprintf("decs %s %s", t[1], t[len(t)-1])); err == nil && md.Class != "fuel" {
+					class += ":not-a-runaway-count"
+				}
+			}
+		}
 	}
 	names := make([]string, len(r.sc.env.Defs))
 	for i, d := range r.sc.env.Defs {
@@ -794,6 +804,7 @@ func (r *pkgRun) c06(di int, B []byte, hexB, bucket string) {
 			r.allocCheck("C06", di, op, len(B))
 		} else {
 			outcome = ru.Class
+			r.badReal("C07", di, op, ru, false, "a truncation is a byte string like any other") // C07 quantifies over these inputs too
 		}
 		mop := fmt.Sprintf("dec 1 %d %s", di, cut)
 		if r.longRound {
@@ -811,6 +822,7 @@ func (r *pkgRun) c06(di int, B []byte, hexB, bucket string) {
 			r.allocCheck("C06", di, op2, len(B))
 		} else {
 			outcome = rd.Class
+			r.badReal("C07", di, op2, rd, false, "a truncation is a byte string like any other")
 		}
 		mop2 := fmt.Sprintf("decs %d %s", di, cut)
 		if r.longRound {
